@@ -5,7 +5,7 @@ from models import hashes, macs, poly, selfcheck
 
 PROPERTY_ID = "C09"
 RULE = ("explicit-state BFS over lifecycle histories of Hmac<D>, Poly1305, legacy keyed Blake2b/Blake2s (as Mac and as Digest) and the legacy digest "
-        "objects; letters input(l) for l in {0,1,blk,blk+1,2blk} (blk = 16 for Poly1305, block size otherwise), result, raw_result, reset, clone, and for "
+        "objects; letters input(l) for l in {0,1,blk,blk+1,2blk} (blk = 16 for Poly1305, block size otherwise), result, raw_result, result_str (legacy digests), reset, clone, and for "
         "legacy BLAKE2 the inherent reset / reset_with_key(k); model = lifecycle automaton (key, bytes since reset, finalised): first result must be the "
         "MAC/digest, a repeated result must be the same bytes or a panic, input after result must panic, reset gives a fresh object with the same key; "
         "tree mode = every letter sequence to the depth bound with up to 2 objects, graph mode = merge on (automaton state, observed result-of-clone) until "
@@ -19,7 +19,7 @@ def builds_needed(tier):
 
 
 def bounds(tier):
-    return {"tree_depth": 4 if tier == "thorough" else 3, "graph_bytes": "4 blocks", "graph_resets": 2, "objects": 2}
+    return {"tree_depth": "4 (5 for Poly1305, Hmac<Sha256>, legacy Sha3_256)" if tier == "thorough" else 3, "graph_bytes": "4 blocks", "graph_resets": 2, "objects": 2}
 
 
 def validate_models(tier):
@@ -106,6 +106,8 @@ class LifeSystem:
             out.append(("res", i))
             if self.api == "m":
                 out.append(("raw", i))
+            else:
+                out.append(("rstr", i))
             if epoch < self.max_resets or not self.graph:
                 out.append(("reset", i))
                 if self.which:
@@ -134,9 +136,11 @@ class LifeSystem:
                 return tuple(m), ["%s %s %s" % (self.opn("input"), s, arg)], ["PANIC"]
             m[i] = (key, epoch, data + pat(5, off, l), None)
             return tuple(m), ["%s %s %s" % (self.opn("input"), s, arg)], ["-"]
-        if op in ("res", "raw"):
-            name = {"res": self.opn("result"), "raw": "mraw"}[op]
+        if op in ("res", "raw", "rstr"):
+            name = {"res": self.opn("result"), "raw": "mraw", "rstr": "dresult_str"}[op]
             val = obs_of(self.M(key, data))
+            if op == "rstr":
+                val = "str:" + self.M(key, data).hex()
             if fin is None:
                 m[i] = (key, epoch, data, "once")
                 return tuple(m), ["%s %s" % (name, s)], [val]
@@ -192,7 +196,11 @@ def shards(tier):
 def shard_tree(i, tier):
     ck = core.Checker(PROPERTY_ID)
     _mk(ck)
-    explorer.explore(LifeSystem(specs(tier)[i], tier, False), ck, "tree", 4 if tier == "thorough" else 3)
+    spec = specs(tier)[i]
+    depth = 4 if tier == "thorough" else 3
+    if tier == "thorough" and (spec[0].startswith("poly1305-06") or spec[0] == "hmac-sha256-k5" or spec[0] == "digest-sha3_256"):
+        depth = 5
+    explorer.explore(LifeSystem(spec, tier, False), ck, "tree", depth)
     return ck.stats
 
 
